@@ -49,14 +49,19 @@ def emit_cases(ctx, tier):
                  (dict(N=2, A=2, MaxTerms=3, MaxList=3, MaxSwaps=0), "InitSets", {"Factors": "SignedFactors"}),
                  (dict(N=2, A=1, MaxTerms=3, MaxList=3, MaxSwaps=0), "InitLists", {"Factors": "SignedFactors"}),
                  # rank-deficient cuts need >= 4 terms over two non-trivial symbols per site: unit factors keep this family small
-                 (dict(N=2, A=2, MaxTerms=4, MaxList=4, Factors="{1}", MaxSwaps=0), "InitSets", None)]
+                 (dict(N=2, A=2, MaxTerms=4, MaxList=4, Factors="{1}", MaxSwaps=0), "InitSets", None),
+                 # product tables S_1 x ... x S_N with unit prefactors: rank-deficient prefactor matrices at every cut
+                 (dict(N=2, A=2, MaxTerms=6, MaxList=6, Factors="{1}", MaxSwaps=0), "InitProducts", None),
+                 (dict(N=3, A=1, MaxTerms=4, MaxList=4, Factors="{1}", MaxSwaps=0), "InitProducts", None)]
     else:
         specs = [(dict(N=3, A=2, MaxTerms=3, MaxList=3, Factors="{1}", MaxSwaps=0), "InitSets", None),
                  (dict(N=3, A=1, MaxTerms=3, MaxList=3, MaxSwaps=0), "InitSets", {"Factors": "SignedFactors"}),
                  (dict(N=4, A=1, MaxTerms=3, MaxList=3, Factors="{1, 2}", MaxSwaps=0), "InitSets", None),
                  (dict(N=4, A=2, MaxTerms=2, MaxList=2, Factors="{1}", MaxSwaps=0), "InitSets", None),
                  (dict(N=2, A=2, MaxTerms=4, MaxList=4, MaxSwaps=0), "InitSets", {"Factors": "SignedFactors"}),
-                 (dict(N=2, A=1, MaxTerms=4, MaxList=4, MaxSwaps=0), "InitLists", {"Factors": "SignedFactors"})]
+                 (dict(N=2, A=1, MaxTerms=4, MaxList=4, MaxSwaps=0), "InitLists", {"Factors": "SignedFactors"}),
+                 (dict(N=2, A=2, MaxTerms=6, MaxList=6, Factors="{1}", MaxSwaps=0), "InitProducts", None),
+                 (dict(N=3, A=2, MaxTerms=6, MaxList=6, Factors="{1}", MaxSwaps=0), "InitProducts", None)]
     cases = []
     for consts, init, subst in specs:
         cfg = tlc.make_cfg(constants=consts, init=init, invariants=["EmitCase"], constraints=["OnlyInit"], subst=subst)
@@ -64,6 +69,8 @@ def emit_cases(ctx, tier):
         ctx.add_tlc(r, f"emit {consts} {init}")
         if not r["emitted"]:
             raise MachineryError("TLC emitted no cases")
+        for e in r["emitted"]:
+            e["_always"] = (init == "InitProducts")
         cases.extend(r["emitted"])
     return cases
 
@@ -84,8 +91,10 @@ def replay_all(ctx, cases, want_covers=False, sample=None):
     if sample is not None and len(items) > sample:
         import random
         rnd = random.Random(ctx.seed)
-        items = rnd.sample(items, sample)
-        items.sort()
+        keep = [it for it in items if it[1].get("_always")]
+        rest = [it for it in items if not it[1].get("_always")]
+        items = keep + rnd.sample(rest, max(0, min(len(rest), sample - len(keep))))
+        items.sort(key=lambda x: x[0])
     n = 64
     ch = [items[i::n] for i in range(n)]
     ch = [c for c in ch if c]
